@@ -19,9 +19,10 @@ def job_kick_row(res, n, nb, it, axis, b, r, margin, kmax, sparse=False):
     data supported >= margin cells from both borders; all other rows keep the concrete random values of the snapshot."""
     bld = maps_build(); mod = load_module(bld, MAPS_MODS)
     snap, R, pre = maps_world(bld, n, nb, it)
-    if (b, r) == (0, 0): validate(res, mod, snap, pre)
+    if (b, r) == (0, 0) and not sparse: validate(res, mod, snap, pre)
     km = 'kmy' if axis else 'kmx'; off = 'offy' if axis else 'offx'
     ex = Exec(mod, snap, RealDom()); st = State()
+    if sparse: ex.time_budget = 2400
     o = z3.Real('off'); st.pc += [o >= -kmax, o <= kmax]; st.ranges['off'] = (Fraction(-kmax), Fraction(kmax))
     ob = b if axis else 0
     offvals = [float(v) for v in [ex.load(st, R[off + '_data'] + 4 * i, F32) for i in range(nb * n)]]
